@@ -39,4 +39,41 @@ def cases():
         dict(kind='rule', dirs=[], name='foo', body=choice(seq(lit('a')))),
         dict(kind='rule', dirs=[], name='Bar', body=choice(seq(lit('b'))))],
         inputs=[('R', 'bx')]))
+    
+    # known finding K4 (C07): a @leftrec rule entered in front of skippable whitespace: the recursive reference is evaluated
+    # after the blank, at another offset than the planted seed => nested complete parse, the outer extension fails, base wins
+    out.append(dict(id='corpusK4', tags=['corpus', 'leftrec', 'lrusual', 'known_K4'], rules=[
+        dict(kind='rule', dirs=['export', 'leftrec'], name='E',
+             body=choice(seq(F('l', 'E', True), lit('+'), F('r', 'Num')), seq(F('b', 'Num')))),
+        dict(kind='rule', dirs=['string'], name='Num', body=choice(seq(('plus', choice(seq(('range', C('0'), C('9'))))))))],
+        inputs=[('E', ' 1+2+3'), ('E', '1+2+3'), ('E', '1 + 2 + 3'), ('E', '7+8'), ('E', '1+'), ('E', '+1')]))
+    # known finding K5 (C10): a @memoize rule taking part in the left recursion caches the sentinel failure for good
+    out.append(dict(id='corpusK5', tags=['corpus', 'leftrec', 'recfirst', 'known_K5'], rules=[
+        dict(kind='rule', dirs=['export'], name='S', body=choice(seq(F('a', 'A'), lit('w')), seq(F('m', 'M')))),
+        dict(kind='rule', dirs=['leftrec'], name='A', body=choice(seq(F('m', 'M', True), lit('x')), seq(lit('b')))),
+        dict(kind='rule', dirs=['memoize'], name='M', body=choice(seq(F('a', 'A', True), lit('y'))))],
+        inputs=[('S', 'z'), ('S', 'bw'), ('S', 'by'), ('S', 'byxw'), ('S', 'b')]))
+    # seeded change C05_m2 (once missed): a memoized rule reached at one offset from a skipping and a non-skipping caller
+    out.append(dict(id='corpusS05', tags=['corpus', 'memo'], rules=[
+        dict(kind='rule', dirs=['export', 'no_skip_ws'], name='S', body=choice(seq(F('a', 'A')), seq(F('b', 'B')))),
+        dict(kind='rule', dirs=[], name='A', body=choice(seq(F('v', 'M'), lit('x')))),
+        dict(kind='rule', dirs=['no_skip_ws'], name='B', body=choice(seq(F('v', 'M'), lit('y')))),
+        dict(kind='rule', dirs=['string', 'no_skip_ws', 'memoize'], name='M', body=choice(seq(lit('m'))))],
+        inputs=[('S', ' my'), ('S', ' mx'), ('S', 'my'), ('S', 'mx'), ('S', ' m')]))
+    # seeded change C10_m2 (once missed): attempts inside a negative lookahead that passed are not failures of the parse
+    out.append(dict(id='corpusS10', tags=['corpus', 'mix'], rules=[
+        dict(kind='rule', dirs=['export', 'no_skip_ws'], name='S',
+             body=choice(seq(('neg', ('group', choice(seq(lit('a'), lit('b'), lit('c'))))), lit('a'), lit('x'))))],
+        inputs=[('S', 'abd'), ('S', 'abc'), ('S', 'ab'), ('S', 'ax'), ('S', 'a')]))
+    # seeded change C09_m2 (once missed): a byte order mark is an ordinary character, offsets count its three bytes
+    out.append(dict(id='corpusS09', tags=['corpus', 'multibyte'], rules=[
+        dict(kind='rule', dirs=['export'], name='S', body=choice(seq(('opt', choice(seq(lit('\ufeff')))), F('w', 'W'), ('eoi',)))),
+        dict(kind='rule', dirs=['string', 'position'], name='W', body=choice(seq(('plus', choice(seq(('range', C('a'), C('z'))))))))],
+        inputs=[('S', '\ufeffab'), ('S', 'ab'), ('S', '\ufeff'), ('S', '\ufeffab1'), ('S', ' \ufeffab')]))
+    # seeded change C12_m1 (once missed): every @check of a rule is called
+    out.append(dict(id='corpusS12', tags=['corpus', 'hooks'], rules=[
+        dict(kind='rule', dirs=['export'], name='S', body=choice(seq(('star', choice(seq(F('w', 'W')))), ('eoi',)))),
+        dict(kind='rule', dirs=[('check', ['hooks', 'chk_hash2']), 'string', ('check', ['hooks', 'chk_hash3']), ('check', ['hooks', 'chk_true'])],
+             name='W', body=choice(seq(('plus', choice(seq(('range', C('a'), C('z'))))))))],
+        inputs=[('S', w) for w in ['a', 'b', 'c', 'ab', 'if', 'zz', 'a b c d', 'q', 'x y']]))
     return out
